@@ -109,6 +109,7 @@ func runOne(seed int64, n int) (msg string) {
 		}
 	}()
 	rng := rand.New(rand.NewSource(seed))
+	ghosts := seed%3 == 0
 	var parents [][]int
 	heads := map[int]bool{}
 	for c := 0; c < n || len(heads) > 1; c++ {
@@ -174,8 +175,20 @@ func runOne(seed int64, n int) (msg string) {
 		a := rng.Intn(3)
 		sig := object.Signature{Name: fmt.Sprintf("dev%d", a), Email: fmt.Sprintf("dev%d@x", a), When: when}
 		cm := &object.Commit{Author: sig, Committer: sig, Message: fmt.Sprintf("c%d", c), TreeHash: th}
-		for _, p := range parents[c] {
+		// now and then a further parent that is not among the analysed commits (first-parent walks, explicit commit
+		// lists): the commit has two parent hashes but is replayed as its parents inside the analysed set demand
+		ghostAt := -1
+		if ghosts && rng.Intn(4) == 0 {
+			ghostAt = rng.Intn(len(parents[c]) + 1)
+		}
+		for k, p := range parents[c] {
+			if k == ghostAt {
+				cm.ParentHashes = append(cm.ParentHashes, plumbing.NewHash(fmt.Sprintf("ffff%04x00000000000000000000000000000000", c)))
+			}
 			cm.ParentHashes = append(cm.ParentHashes, hashes[p])
+		}
+		if ghostAt == len(parents[c]) {
+			cm.ParentHashes = append(cm.ParentHashes, plumbing.NewHash(fmt.Sprintf("ffff%04x00000000000000000000000000000000", c)))
 		}
 		hashes[c] = put(st, plumbing.CommitObject, cm.Encode)
 	}
